@@ -62,3 +62,64 @@ package verifspec
 //@   oncall WritePkgCode: assert a0 == pkgs[nw]
 //@   ensures result == nil ==> nw == len(pkgs)
 //@   ensures result == nil ==> log == chain(chain(chain(chain(chain(chain(chain(chain(chain(chain(chain(0, str("\"use strict\";\n(function() {\n\n")), str("var $goVersion = %q;\n")), str("\n")), str("$callForAllPackages(\"$finishSetup\");\n")), str("$synthesizeMethods();\n")), str("$callForAllPackages(\"$initLinknames\");\n")), str("var $mainPkg = $packages[\"%s\"];\n")), str("$packages[\"runtime\"].$init();\n")), str("$go($mainPkg.$init, []);\n")), str("$flushConsole();\n")), str("\n}).call(this);\n"))
+
+// ---- funcDecls: the declaration that invokes main.main is the last one of package main, and the only one.
+// Declaration names: "init:main" for the invoking declaration; every other function-level declaration has a name that
+// starts with 'f' ("funcVar:..." / "func:...").
+//@ pure isMainPkg(pc int) bool
+//@ func compiler.mainFuncDeclFullName
+//@ property C10
+//@   ensures result == "init:main"
+//@ func compiler.funcVarDeclFullName
+//@ property C10
+//@   ensures len(result) > 0 && result[0] == 102
+//@ func compiler.funcDeclFullName
+//@ property C10
+//@   ensures len(result) > 0 && result[0] == 102
+//@ extern compiler.pkgContext.isMain
+//@   param pc
+//@   assigns nothing
+//@   ensures result == isMainPkg(ref(pc))
+//@ extern compiler.funcContext.newFuncDecl
+//@   param fc fun inst
+//@   ensures result != nil && newobj(result) && len(result.FullName) > 0 && result.FullName[0] == 102
+//@ extern compiler.funcContext.knownInstances
+//@   param fc o
+//@ extern compiler.funcContext.objectName
+//@   param fc o
+//@ extern compiler.funcContext.CatchOutput
+//@   param fc indent f
+//@ extern compiler.Decl.Dce
+//@   param d
+//@   ensures result != nil
+//@ extern compiler/internal/dce.Info.SetName
+//@   param id o tNest tArgs
+//@ extern compiler/internal/typeparams.Instance.IsTrivial
+//@   param i
+//@ extern go/types.object.Name
+//@   param o
+//@ extern go/types.object.Exported
+//@   param o
+//@ extern compiler/internal/typeparams.Instance.String
+//@   param i
+//@ extern compiler/internal/symbol.New
+//@   param o
+//@ extern compiler/internal/symbol.Name.String
+//@   param n
+//@ extern compiler.encodeIdent
+//@   param name
+//@ extern compiler.funcContext.Printf
+//@ extern compiler.funcContext.translateStmt
+//@ extern compiler.funcContext.callMainFunc
+
+//@ func compiler.funcContext.funcDecls
+//@ property C10
+//@   results decls err
+// (the type assertion on the type checker's Defs entry is outside this contract: a panic there aborts the build)
+//@   panics_only_if true
+//@   requires fc != nil && fc.pkgCtx != nil && forall(k, 0, len(functions), functions[k] != nil)
+//@   loop 1 invariant forall(k, 0, len(funcDecls), funcDecls[k] != nil && len(funcDecls[k].FullName) > 0 && funcDecls[k].FullName[0] == 102)
+//@   loop 2 invariant forall(k, 0, len(funcDecls), funcDecls[k] != nil && len(funcDecls[k].FullName) > 0 && funcDecls[k].FullName[0] == 102)
+//@   ensures err == nil && isMainPkg(ref(fc.pkgCtx)) ==> len(decls) > 0 && decls[len(decls) - 1].FullName == "init:main"
+//@   ensures err == nil && isMainPkg(ref(fc.pkgCtx)) ==> forall(k, 0, len(decls) - 1, decls[k].FullName[0] == 102)
+//@   ensures err == nil && !isMainPkg(ref(fc.pkgCtx)) ==> forall(k, 0, len(decls), decls[k].FullName[0] == 102)
